@@ -43,7 +43,7 @@ RIMP_ALL = RIMP + ("lin_generic",)     # lin_generic (the N >= 4 branch of linea
 OWN = ("copy_assign", "copy_ctor", "members")     # harness/cxx2own.py
 
 
-IOL = ("io_array", "io_constant", "io_identity", "io_strided", "io_morton", "io_hilbert", "io_clamp", "io_backup", "io_affine", "io_linear",
+IOL = ("io_array", "io_field", "io_constant", "io_identity", "io_strided", "io_morton", "io_hilbert", "io_clamp", "io_backup", "io_affine", "io_linear",
        "io_nearest_neighbour", "io_shuffle", "io_covariant_cast", "io_dereference")     # harness/cxx2io.py
 
 
@@ -111,7 +111,7 @@ def _where(k):
         return cxx2bin.KERNELS[k]
     if k in IOL:
         from harness import cxx2io
-        return cxx2io.LAYERS.get(k, "backend/primitive/array.hpp") + " write_binary / read_binary"
+        return cxx2io.LAYERS.get(k, "field.hpp" if k == "io_field" else "backend/primitive/array.hpp") + " write_binary / read_binary"
     if k in OWN:
         from harness import cxx2own
         return cxx2own.KERNELS[k]
